@@ -239,3 +239,11 @@ func init() {
 		}
 	})
 }
+
+func init() {
+	register("DBGR", "debug: early exits", func(c *Ctx, r *Report) {
+		for _, s := range c.W.earlyExits("core/visitors", "core/metadata", "core/pipeline", "core/validators", "core/annotations", "generator", "graphs", "core/arbitrators", "gast", "cmd") {
+			fmt.Println("EARLY", c.W.pos(s.Pos.Pos()), s.Key)
+		}
+	})
+}
